@@ -334,6 +334,14 @@ func (r *Reconciler) commitChange(ctx context.Context, transaction *configapi.Tr
 			}
 			return controller.Result{}, true, nil
 		}
+		// The failed change no longer holds up the log: wake the next transaction, as a completed commit does
+		// (the configuration event only re-queues this transaction)
+		return controller.Result{
+			Requeue: controller.NewID(configapi.TransactionID{
+				Target: transaction.ID.Target,
+				Index:  transaction.ID.Index + 1,
+			}),
+		}, true, nil
 	}
 	return controller.Result{}, false, nil
 }
